@@ -95,7 +95,7 @@ var interestingPrefixes = []string{
 	"backupNonsegmentFiles", "newSegmentIterator", "newRecoveryIterator", "db.recover", "db.opts.FileSystem.",
 	"dl.opts.FileSystem.", "writeGobFile", "readGobFile", "db.hash", "db.Sync", "db.Compact", "db.startBackgroundWorker",
 	"openIndex", "openDatalog", "createLockFile", "db.datalog.sealSegment", "dl.sealSegment", "dl.swapSegment", "bit.next",
-	"db.index.newBucketIterator", "it.db.index.newBucketIterator",
+	"db.index.newBucketIterator", "it.db.index.newBucketIterator", "lock.Unlock", "db.lock.Unlock",
 }
 
 var interestingFields = []string{
